@@ -61,6 +61,26 @@ package ice
 // A freshly constructed candidate has not been started: it owns no socket.
 //@ func NewCandidateServerReflexive
 //@   props C09
-//@   trusted
-//@   pure
-//@   ensures result1 == nil ==> result0 != nil && result0.candidateBase.closeCh == nil && result0.candidateBase.conn == nil
+//@   opt nosafety
+//@   ensures never-started: result1 == nil ==> result0 != nil && fresh(result0) && result0.candidateBase.closeCh == nil && result0.candidateBase.conn == nil
+
+//@ func NewCandidateHost
+//@   props C09
+//@   opt nosafety
+//@   ensures never-started: result1 == nil ==> result0 != nil && fresh(result0) && result0.candidateBase.closeCh == nil && result0.candidateBase.conn == nil
+
+// Host candidates on a UDP mux: every connection reference taken from the mux is
+// released (closed once) or handed to a started candidate before the next one is taken.
+//@ func (*Agent).gatherCandidatesLocalUDPMux
+//@   props C09
+//@   opt nosafety
+//@   ghostvar outstanding int = 0
+//@   loop 1 invariant no-reference-outstanding: outstanding == 0
+//@   loop 2 invariant no-reference-outstanding: outstanding == 0
+//@   site call GetConn#1 assert takes-one-reference-at-a-time: outstanding == 0
+//@   site call GetConn#1 ghost after outstanding := outstanding + ite(result1 == nil, 1, 0)
+//@   site call closeConnAndLog#0 assert releases-the-reference-just-taken: arg0.payload == conn.payload && outstanding == 1
+//@   site call closeConnAndLog#0 ghost after outstanding := outstanding - ite(arg0 != nil && arg0.payload != nil, 1, 0)
+//@   site call addCandidate#1 assert hands-over-the-reference-just-taken: arg3.payload == conn.payload && outstanding == 1 && conn.gClosed == 0
+//@   site call addCandidate#1 ghost after outstanding := outstanding - ite(result == nil, 1, 0)
+//@   ensures every-mux-reference-is-closed-or-owned: outstanding == 0
